@@ -34,7 +34,8 @@ META = {
         " Also: half_plus_q_regex completes before every element separator, ilots reads after the last 'L', parallel lots/qqs statements read one collection each, argument-over-attribute lock-down of the lot settings."
         " Round 7: a flag test by prefix cannot be answered by a different flag (dup_lot / dup_lot_acreage); ilots evaluated on lot names the parser writes ('N2 of L7'); a substring pre-test in front of a regex search is implied by every enumerated member of the regex's language."
         ' Round 8: the duplicate scan is gated on the list it scans; a lot group is cut at the bounds of its whole match.'
-        " Round 10: stale captures of repeated groups (`word_lot_rightmost`, `and`, `thru`) are not read by value in a rightmost walk - this found and repaired a genuine defect ('N/2 of Lot 1 - Lot 3, 4'); the aliquot look-ahead accepts every element separator."),
+        " Round 10: stale captures of repeated groups (`word_lot_rightmost`, `and`, `thru`) are not read by value in a rightmost walk - this found and repaired a genuine defect ('N/2 of Lot 1 - Lot 3, 4'); the aliquot look-ahead accepts every element separator."
+        " Round 11: `x = x or self.x` on a switch setting drops an explicit False; the acreage pattern finds the acreage in context ('L1(38.29)')."),
     'families': ['SEP', 'DEFUSE', 'PAIR', 'RX-LANG', 'RX-GROUPS', 'FORWARD', 'DEADPARAM', 'SIB-DEFAULTS'],
 }
 
@@ -119,7 +120,9 @@ def ilots_after_l(ctx):
         var = comp.generators[0].target.id
         wrong = None
         try:
-            for lot, want in (('L1', 1), ('L12', 12), ('N2 of L7', 7), ('E2SW of L4', 4), ('S2N2 of L10', 10)):
+            # divisions first: an expression that cannot be evaluated on a plain lot (a capture group) may
+            # still fail decidably on a division (`rx.match('N2 of L7')` is None)
+            for lot, want in (('N2 of L7', 7), ('E2SW of L4', 4), ('S2N2 of L10', 10), ('L1', 1), ('L12', 12)):
                 got = StrEval(ctx, il, env={var: lot}).ev(comp.elt)
                 if got != want:
                     wrong = (lot, got, want)
@@ -237,6 +240,8 @@ def _rest_of_check(ctx, fi, mlwa, aunp):
     ctx.attempt(dup_scan_and_cut)
     ctx.attempt(common.dedup_idioms, [f for f in ctx.repo.funcs.values() if f.module.name.endswith(('tract.tract_parse', 'unpack.unpackers'))])
     ctx.attempt(lockdown, ctx.repo.func('Tract.parse'), only=('include_lot_divs', 'suppress_lot_divs', 'parse_qq'))
+    from .c13 import precedence
+    ctx.attempt(precedence, ctx.repo.func('Tract.parse'), only=('include_lot_divs', 'suppress_lot_divs', 'parse_qq'))
     ctx.attempt(common.embedded_case_consistency, modules=('rgxlib.lots', 'rgxlib.aliquots'))
     ctx.attempt(_chain_language)
     ctx.attempt(half_plus_q_contexts, ELEMENT_SEPARATORS)
@@ -369,6 +374,14 @@ def _acreage(ctx):
     for s in ('1(38.29)', '12 [40.00]', '3 (40)'):
         ctx.check(L.fullmatch(s), 'RX-LANG', f"lot_acres_unpacker_regex matches {s!r}",
                   detail_bad=f"{s!r} no longer recognised as lot + acreage", key=f"RX-LANG|lot_acres_unpacker_regex|{s}")
+    # ... and is FOUND where get_rightmost_acreage looks for it: from the start of the lot element (the word
+    # 'Lot' / 'L' or the intervener) - the number may stand directly behind a letter or a comma
+    for s in ('L1(38.29)', 'Lot5[39.51]', 'Lots 1(40.00)', ', 2 (31.3)', ', L3(40)', ' & Lot 4 [39.1]'):
+        found = any(e_ == len(s) for _s, e_ in L.search_spans(s))
+        ctx.check(found, 'RX-LANG', f"lot_acres_unpacker_regex finds the acreage in {s!r}",
+                  detail_bad=f"searched in {s!r} (a lot element as multilot_regex matches it), the pattern no longer finds the "
+                             f"acreage: the stated acreage of that lot is silently dropped from lot_acres",
+                  key=f"RX-LANG|lot_acres_unpacker_regex|search|{s}")
     for ch in '[]()':
         ctx.shape(f"acreage_string.replace('{ch}', '')" in t, 'DEFUSE', f"brackets {ch!r} stripped from the acreage")
     tp = ctx.repo.func('TractParser.parse')
